@@ -371,3 +371,31 @@ package keeper
 //@   pure
 //@   ensures @found_only err == nil ==> validBech32(req.ReceiverAddr) && validBech32(req.SenderAddr) && strHas(str_store, bytesval(addrOf(req.ReceiverAddr)), bytesval(addrOf(req.SenderAddr)))
 //@   ensures @names_as_requested err == nil ==> resp.Stream.Receiver == req.ReceiverAddr && resp.Stream.Sender == req.SenderAddr
+
+// ================================================================ genesis import (C10, C15)
+//
+// On a store without streams: every stream of the document is stored under its (receiver, sender) pair exactly as
+// given, nothing else appears, and - because the function compares the escrow balance with the sum of the imported
+// deposits and panics otherwise - the escrow invariant STR_ESCROW holds when it returns.  Document preconditions
+// (stated, not checked by the code): pairs are pairwise distinct; deposits are valid non-negative coins; times are
+// representable.
+//@ func Keeper.GetStreamModuleAccount(ctx) (r)
+//@   trusted returns the module account object from the account keeper; reads no stream state
+//@   pure
+//@   ensures r != nil ==> bytesval(acctAddr(r)) == bytesval(modAddr("stream"))
+
+//@ func Keeper.InitGenesis(ctx, genState)
+//@   props C10 C15
+//@   requires forall r `BytesV`, sd `BytesV` :: {str_store[kStream(r, sd)]} !strHas(str_store, r, sd)
+//@   requires forall j int :: {genState.Streams[j]} 0 <= j && j < len(genState.Streams) ==> !isnil(genState.Streams[j].Stream.Deposit.Amount) && 0 <= Amt(genState.Streams[j].Stream.Deposit) && Amt(genState.Streams[j].Stream.Deposit) < P255 && validDenom(genState.Streams[j].Stream.Deposit.Denom) && validTime(genState.Streams[j].Stream.LastOutflowTime) && validTime(genState.Streams[j].Stream.DepositZeroTime)
+//@   requires forall i int, j int :: {genState.Streams[i], genState.Streams[j]} 0 <= i && i < j && j < len(genState.Streams) && validBech32(genState.Streams[i].Receiver) && validBech32(genState.Streams[i].Sender) && validBech32(genState.Streams[j].Receiver) && validBech32(genState.Streams[j].Sender) ==> !(addrB(genState.Streams[i].Receiver) == addrB(genState.Streams[j].Receiver) && addrB(genState.Streams[i].Sender) == addrB(genState.Streams[j].Sender))
+//@   let xs := genState.Streams
+//@   let esc := bytesval(modAddr("stream"))
+//@   modifies str_store
+//@   ensures @streams_imported forall j int :: {xs[j]} 0 <= j && j < len(xs) ==> validBech32(xs[j].Receiver) && validBech32(xs[j].Sender) && str_store[kStream(addrB(xs[j].Receiver), addrB(xs[j].Sender))] == strBytes(xs[j].Stream)
+//@   ensures @nothing_else forall r `BytesV`, sd `BytesV` :: {str_store[kStream(r, sd)]} strHas(str_store, r, sd) ==> exists j int :: 0 <= j && j < len(xs) && validBech32(xs[j].Receiver) && validBech32(xs[j].Sender) && addrB(xs[j].Receiver) == r && addrB(xs[j].Sender) == sd
+//@   ensures @escrow_backs_every_deposit STR_ESCROW(str_store, bank_bal, esc)
+//@   loop 0: invariant 0 - 1 <= rangeindex && rangeindex < len(xs) && forall k `stream.Key` :: {str_store[k]} !isStreamKey(k) ==> str_store[k] == at_loop_entry(str_store)[k]
+//@   loop 0: invariant forall j int :: {xs[j]} 0 <= j && j <= rangeindex ==> validBech32(xs[j].Receiver) && validBech32(xs[j].Sender) && str_store[kStream(addrB(xs[j].Receiver), addrB(xs[j].Sender))] == strBytes(xs[j].Stream)
+//@   loop 0: invariant forall r `BytesV`, sd `BytesV` :: {str_store[kStream(r, sd)]} strHas(str_store, r, sd) ==> exists j int :: 0 <= j && j <= rangeindex && validBech32(xs[j].Receiver) && validBech32(xs[j].Sender) && addrB(xs[j].Receiver) == r && addrB(xs[j].Sender) == sd
+//@   loop 0: invariant forall d string :: {coinsAmt(moduleHoldings, d)} {depSum(str_store, d)} coinsAmt(moduleHoldings, d) == depSum(str_store, d)
